@@ -44,3 +44,13 @@ CASES += [
     dict(id='c01-eq-value-decision-reordered', prop='C01', file=I, expect=None,
          old="   } else if (mNextIsValue\n              || (mRemainingArgumentStringAsValue && (mArgCharPos > 0)))", new="   } else if ((mRemainingArgumentStringAsValue && (mArgCharPos != 0))\n              || mNextIsValue)"),
 ]
+
+ALI9 = 'src/celma/prog_args/detail/arg_list_iterator.hpp'
+CASES += [
+    dict(id='c01-control-word-any-length', prop='C01', file=ALI9, expect='R11',
+         old="         if ((mCurrArgStringLen == 1) && isCtrlChar( mpArgV[ mArgIndex][ 0]))", new="         if ((mCurrArgStringLen >= 1) && isCtrlChar( mpArgV[ mArgIndex][ 0]))"),
+    dict(id='c01-eq-control-word-test-reordered', prop='C01', file=ALI9, expect=None,
+         old="         if ((mCurrArgStringLen == 1) && isCtrlChar( mpArgV[ mArgIndex][ 0]))", new="         if (isCtrlChar( mpArgV[ mArgIndex][ 0]) && (mCurrArgStringLen == 1))"),
+    dict(id='c01-control-chars-include-dash', prop='C01', file=ALI9, expect='R11',
+         old="   return (argChar == '(') || (argChar == ')') || (argChar == '!');", new="   return (argChar == '(') || (argChar == ')') || (argChar == '!') || (argChar == '-');"),
+]
